@@ -197,7 +197,7 @@ def body_distance(ctx, m, v1, v2):
     ctx.witness("lemma")
 
 
-def body_nndvi(ctx, N, sampling_times):
+def body_nndvi(ctx, N, sampling_times, nan_at=None):
     from menelaus.data_drift import nndvi as M
 
     with DRIVERS["NNDVI"](ctx, rows=2, dim=1) as drv:
@@ -205,10 +205,7 @@ def body_nndvi(ctx, N, sampling_times):
         d.sampling_times = sampling_times
         del d._compute_drift_threshold  # use the real threshold computation
         rec = {"perm": [], "fit": [], "ppf": []}
-
-        def permutation(v):
-            rec["perm"].append(v)
-            return ("perm", len(rec["perm"]), v)
+        step = [0]
 
         class FakeNorm:
             @staticmethod
@@ -220,7 +217,9 @@ def body_nndvi(ctx, N, sampling_times):
 
             @staticmethod
             def ppf(level, mu, sd):
-                r = cur().real("theta")
+                # scipy returns NaN for a degenerate fit (deviation 0: e.g. the test batch repeats reference rows); nothing
+                # exceeds an undefined threshold
+                r = float("nan") if nan_at == step[0] else cur().real("theta")
                 rec["ppf"].append((level, mu, sd, r))
                 return r
 
@@ -249,6 +248,7 @@ def body_nndvi(ctx, N, sampling_times):
                 nlog = len(drv.log)
                 for k in rec:
                     del rec[k][:]
+                step[0] = i
                 x = drv.step(i)
                 new = drv.log[nlog:]
                 b = [e for e in new if e[0] == "build"]
@@ -309,4 +309,7 @@ def jobs(tier):
     for st in (1, 3) if q else (1, 2, 3):
         out.append(Job(f"nndvi-st{st}", "checks.c10:body_nndvi", {"N": 4, "sampling_times": st}, expect=("drift", "no-drift"),
                        opts={"validate": 1}))
+    for nan_at in (0, 1):
+        out.append(Job(f"nndvi-st1-undefined-threshold-at{nan_at}", "checks.c10:body_nndvi",
+                       {"N": 3, "sampling_times": 1, "nan_at": nan_at}, expect=("drift", "no-drift"), opts={"validate": 1}))
     return out
